@@ -8,6 +8,7 @@ must be equal.  A periodic real fresh interpreter cross-checks 'forked from a pr
 'fresh interpreter'.  A difference is attributed to the recorded known finding (set-once class-wide
 Rectangle tolerance) ONLY if a third child, which forces the tolerance the history left behind and then
 runs the probe alone, reproduces the after-history digest exactly; anything else is a violation."""
+import copy
 import json
 import os
 import select
@@ -31,7 +32,7 @@ ASSUMPTIONS = [
 CASES = {"quick": 960, "thorough": 40000}
 MIN_CASES = {"quick": 240, "thorough": 10000}
 REQUIRED_COUNTERS = ["pairs_compared", "parent_pristine_checked", "fresh_interpreter_crosschecks", "probe:netlist", "probe:die", "probe:die_refine", "probe:alloc", "probe:stog",
-                     "probe:pb", "probe:legal", "probe:strop", "near_threshold_probes", "history_ops_executed", "history_scale_extreme_low", "history_scale_extreme_high", "history_near_copies_of_the_probe", "history_same_design_loaded_and_mutated", "probe:heule_deep"]
+                     "probe:pb", "probe:legal", "probe:strop", "near_threshold_probes", "history_ops_executed", "history_scale_extreme_low", "history_scale_extreme_high", "history_near_copies_of_the_probe", "history_same_design_loaded_and_mutated", "probe:heule_deep", "long_sessions"]
 SOFT_DEADLINE = {"quick": 240, "thorough": 3300}
 KINDS = ["netlist", "die", "die_refine", "alloc", "stog", "pb", "strop", "legal"]
 
@@ -181,6 +182,19 @@ def generate(rng, tier, i):
         for _ in range(rng.randint(1, 2)):
             hist.insert(rng.randint(0, len(hist)), {"k": "pb_big", "n": rng.choice([300, 450, 700]), "bound": rng.choice([1, 2, 3]), "decomp": rng.random() < 0.3})
         return {"cls": "heule_deep", "probe": probe, "history": hist, "crosscheck": False}
+    if i % 37 == 31:
+        # a long session: the probe itself first, then hundreds of encodings of other designs (process-wide stores that are
+        # evicted / restarted / capped after many entries), then the probe
+        nv = rng.randint(6, 9)
+        cons = []
+        for _ in range(rng.randint(1, 2)):
+            terms = [[rng.randint(3, 60), v, True] for v in rng.sample(range(nv), rng.randint(5, nv))]
+            cons.append({"k": "pb", "terms": terms, "op": rng.choice([">=", "<="]), "bound": sum(t[0] for t in terms) // 2, "decomp": rng.random() < 0.3, "variant": 0})
+        probe = {"k": "pb", "nv": nv, "cons": cons}      # a diagram with a few dozen nodes
+        hist = [copy.deepcopy(probe), {"k": "pb_many", "count": rng.choice([450, 600]), "nv": 14, "seed": rng.randrange(1 << 30), "op_limit": 60.0}]
+        if rng.random() < 0.5:
+            hist.append(gen_op(rng, "pb"))
+        return {"cls": "long_session", "probe": probe, "history": hist, "crosscheck": False}
     kind = KINDS[i % len(KINDS)] if (i % 40) != 39 else "legal"
     if kind == "legal" and (i % 40) != 39 and rng.random() < 0.7:
         kind = rng.choice(KINDS[:-1])
@@ -304,7 +318,7 @@ def run_probe_only(probe):
 def run_history_then_probe(history, probe):
     n = 0
     for h in history:
-        ho.run_op(h, HISTORY_LIMIT)
+        ho.run_op(h, h.get("op_limit", HISTORY_LIMIT))
         n += 1
     tol = tolerance_state()
     return {"digest": ho.run_op(probe, PROBE_LIMIT), "tolerance_before_probe": tol, "history_ops": n}
@@ -341,6 +355,8 @@ def check(case, ctx):
     ctx.count("probe:" + probe["k"])
     if case["cls"].startswith("near:"):
         ctx.count("near_threshold_probes")
+    if case["cls"] == "long_session":
+        ctx.count("long_sessions")
     ctx.nontrivial(len(history) >= 3)
     for h in history:
         if h.get("_near_copy"):
